@@ -585,6 +585,9 @@ package mqtt
 //@ requires validCl(cl) && cl.ops.info != nil
 //@ ensures C08-C09-only-completed-acks-are-removed: forall k uint16 :: old(has(ifl(cl), k)) && old(ifl(cl)[k].FixedHeader.Type) != Puback && old(ifl(cl)[k].FixedHeader.Type) != Pubcomp ==> has(ifl(cl), k) && ifl(cl)[k] == old(ifl(cl)[k])
 //@ ensures C09-resent-with-dup-and-original-id: forall n int :: old(cl.nsent) <= n && n < cl.nsent ==> (cl.sentpk[n].FixedHeader.Type == Publish ==> cl.sentpk[n].FixedHeader.Dup) && wasInflight(cl, cl.sentpk[n].PacketID) && cl.sentpk[n].FixedHeader.Type == wasType(cl, cl.sentpk[n].PacketID)
+// C20 / C21: taking a session over deletes its in-flight records from the store (ClearInflights of the old connection reports each as
+// dropped); the new connection persists each one again as it resends it, whatever stage of its exchange the record is in
+//@ callsite mqtt.Client.WritePacket C20-every-resent-inflight-record-is-persisted-again: arg0 == cl && evkind[nev - 1] == EV_QOS_PUBLISH() && evcl[nev - 1] == cl && evid[nev - 1] == int(arg1.PacketID)
 // verif:loop mqtt.Client.ResendInflightMessages 1
 //@ invariant forall k uint16 :: old(has(ifl(cl), k)) && old(ifl(cl)[k].FixedHeader.Type) != Puback && old(ifl(cl)[k].FixedHeader.Type) != Pubcomp ==> has(ifl(cl), k) && ifl(cl)[k] == old(ifl(cl)[k])
 //@ invariant dup: forall n int :: old(cl.nsent) <= n && n < cl.nsent ==> (cl.sentpk[n].FixedHeader.Type == Publish ==> cl.sentpk[n].FixedHeader.Dup)
